@@ -263,7 +263,8 @@ def r14_2(ctx, end: str) -> None:
     if len(params) != 4:
         raise AnalysisError("ExitStack.__aexit__ signature changed (anchor moved)")
     table = []
-    for n in range(0, 4):
+    depth = 5 if getattr(ctx, "tier", "quick") == "thorough" and not getattr(ctx, "_shared", False) else 4
+    for n in range(0, depth):
         for outcomes in itertools.product("FTR", repeat=n):
             for received in (False, True):
                 ctx.count("unwind_scenarios")
